@@ -22,13 +22,13 @@ CHECKS = {
    text="Sequences of evaluations on one long-lived evaluator compared with fresh evaluators; exact antisymmetry and mirror symmetry; |eval| < 32767 with the measured maximum reported; includes an extreme-material family.",
    note="'Well inside the window' is judged by the necessary condition |eval| < 32767."),
  "C15": dict(level="exploration", design="DESIGN.md §4 C15",
-   technique="model-based (state-machine) property testing: generated store/retrieve histories compared with a HashMap model after every operation",
+   technique="model-based (state-machine) property testing: generated store/retrieve histories on near-colliding key universes checked after every operation against an observational model of exactly the statement (a lookup may return nothing at any time; nothing else may differ)",
    text="Op histories up to 400 ops on near-colliding key universes; every observable retrieve compared with the model after every op.",
-   note="Model rule: accept iff no entry or old.depth <= new.depth."),
+   note="Rules: never-stored key has nothing; between stores a key shows its last observed entry or nothing (and stays nothing); a store onto nothing or depth <= new depth is retrievable at once; a store onto a deeper entry leaves it. A forgetting (bounded) table is not a violation."),
 
  "C04": dict(level="exploration", design="DESIGN.md §4 C04",
    technique="property-based testing: generated position-command histories through the real command handler vs reference model position (round trip through FEN text and UCI move lists)",
-   text="Histories of 1..3 position commands (startpos or reference-written six-field FEN with counters a real game can reach, plus reference-legal move lists up to 250 plies with castles, ep and under-promotions); the engine's board after every command must equal the reference position.",
+   text="Histories of 1..3 position commands (startpos or reference-written six-field FEN with counters a real game can reach — clock never above the plies played, often exactly on that bound — plus reference-legal move lists up to 250 plies with castles, ep and under-promotions), with ucinewgame/isready between them and later commands repeating or continuing the previous one; the engine's board after every command must equal the reference position.",
    note="Trusted: refchess; hooks verif_handle_command/verif_board only expose the private handler and board."),
  "C05": dict(level="exploration", design="DESIGN.md §4 C05, §3.3",
    technique="differential property-based testing: engine search vs definitional plain-minimax reference (no pruning/ordering/caching) over an independent rules model, exact integer comparison, plus audit of every cached table entry as a (depth,bound,score) claim",
@@ -37,11 +37,11 @@ CHECKS = {
  "C06": dict(level="fault_enumeration", design="DESIGN.md §4 C06",
    technique="fault-point enumeration inside a property-based test: the deadline is a generated/enumerated node count (hook), every expiry point of small searches is tried; oracle = reference minimax + table-claim audit + history snapshot",
    text="For generated positions every node count 1..T-1 at which the deadline can fall is enumerated (sampled for larger searches), alone and in sequences of 1..3 interruptions; after each, the history record must be unchanged, every table entry left behind must be a true claim, and a completed follow-up search must report the reference value.",
-   note="Deadline expressed in nodes via the SearchTimer hook (should_stop answers nodes >= limit). Reference as in C05."),
+   note="Deadline expressed in nodes via the SearchTimer hook (at node k the timer's own limit becomes zero; the engine's real deadline test decides). Reference as in C05."),
  "C07": dict(level="fault_enumeration", design="DESIGN.md §4 C07",
-   technique="fault-point enumeration/sampling of deadline node counts with an invariant on instrumentation counters (observation latency, work after observation), incl. constructed explosive positions",
-   text="Node-count deadlines enumerated for small searches and sampled log-uniformly up to 300k (3M thorough) on middlegames and explosive quiescence shapes; the first poll seeing the expiry must come within 4096 nodes, at most 256 nodes may follow, and the search must return (hard cap turns a runaway into a caught panic).",
-   note="Node-count formulation via hook; wall-clock figures from the real binary are recorded as information only."),
+   technique="fault-point enumeration/sampling of deadline node counts (stateful: optional earlier searches on the same engine) with an invariant on passive instrumentation counters (observation latency, work after the expiry became observable), incl. constructed explosive positions; plus black-box property testing of the real binary under a real clock judged on CPU time consumed after the budget",
+   text="Node-count deadlines enumerated for small searches and sampled log-uniformly up to 300k (3M thorough) on middlegames and explosive quiescence shapes, on fresh engines and after earlier unlimited searches on the same engine; the first poll after the expiry must come within 4096 nodes, at most 256 nodes may follow, and the search must return (hard cap turns a runaway into a caught panic). Black-box layer: go movetime T / depth 64 movetime T / a clock with T left (T 0..300 ms) on the real binary, optionally after an earlier search in the process: CPU time consumed between go and bestmove must stay below T + 300 ms.",
+   note="Node-count formulation via a passive hook (the engine's own deadline test decides). The black-box verdict uses CPU time of the single-threaded process (a lower bound of wall-clock time), never wall-clock time itself."),
  "C11": dict(level="exploration", design="DESIGN.md §4 C11",
    technique="property-based testing: metamorphic relations on the hash (transposing move orders and FEN-vs-play must be equal; single-component flips must differ) and population collision check, under several fresh key draws",
    text="Commuting move-order pairs verified equal by the reference, positions by FEN vs by play with different counters, single-feature flips through the public Board API, and pools of >=10^4 positions per worker; each under 8 (64 thorough) independent ZobristTable::new() draws.",
@@ -57,7 +57,7 @@ CHECKS = {
 
  "C03": dict(level="exploration", design="DESIGN.md §4 C03",
    technique="stateful (model-based) property testing in-process with node-count budgets as deterministic expiry points, plus black-box script testing of the real process; oracle = reference legal-move set of the position last set",
-   text="Layer A: generated op lists (newgame / position / play / search with depth 1..4 and budgets expiring before, inside and between iterations) on one engine, the answer of every search must be a reference-legal move of the current position iff one exists. Layer B: the real binary driven over pipes with depth, movetime and clock-based go commands on both sides of the 5 s reserve; exactly one bestmove line per go, legal, 0000 only when no move exists.",
+   text="Layer A: generated op lists (newgame / position / play / resume the pre-newgame command / search with depth 1..4 and budgets expiring before, inside and between iterations) on one engine, the answer of every search must be a reference-legal move of the current position iff one exists. Layer B: the real binary driven over pipes with depth, movetime and clock-based go commands on both sides of the 5 s reserve; exactly one bestmove line per go, legal, 0000 only when no move exists.",
    note="Layer A observes the Option<Move> from which handle_go_command prints bestmove; node budgets (hook) stand for wall-clock budgets."),
  "C08": dict(level="exploration", design="DESIGN.md §4 C08",
    technique="property-based testing with a validity-predicate oracle: constructed mate-in-one and allows-mate-in-one positions (verified by the reference), engine answer checked against Mates(p) / Allows(p)",
@@ -65,16 +65,16 @@ CHECKS = {
    note="Mates/Allows computed by refchess; fresh Searcher per search; searches over the node watchdog are excluded and counted."),
  "C09": dict(level="exploration", design="DESIGN.md §4 C09",
    technique="property-based testing over generated game histories with controlled repetition multiplicities; oracle = occurrence count in the reference history combined with reference quiescence values (depth-1 value equation), through the real position/go command path",
-   text="Histories built from prefixes, 0..3 shuffle cycles and partial cycles (with lost rights, irreversible moves, earlier position commands that must not count); the engine's depth-1 score after 'position ... / go depth 1' must equal max over moves of (seen twice before ? 0 : real value).",
+   text="Histories built from prefixes, 0..3 shuffle cycles, long reversible excursions and partial cycles (with lost rights, irreversible moves, earlier position commands that must not count, and the final position given again as a bare command whose history is that one position); the engine's depth-1 score after 'position ... / go depth 1' must equal max over moves of (seen twice before ? 0 : real value).",
    note="Successors whose count depends on the ep convention are excluded; reference quiescence as in C05."),
  "C13": dict(level="exploration", design="DESIGN.md §4 C13",
    technique="differential testing between independent runs of the real process (each with fresh random keys) and metamorphic fresh-equivalence for ucinewgame, over generated depth-limited command scripts",
-   text="Generated scripts with carried-over search state are run in 3 (8 thorough) separate processes and must give identical normalised output; prefix + ucinewgame + suffix must give the same suffix output as a fresh process.",
+   text="Generated scripts with carried-over search state are run in 3 (8 thorough) separate processes and must give identical normalised output, including a few scripts with multi-million-node searches (table-capacity effects); prefix + ucinewgame + suffix must give the same suffix output as a fresh process, with new games that revisit positions of the old one, shuffle games next to the start position and a bare go right after ucinewgame.",
    note="Key-set dependence is sampled with R runs per script; only time and nps fields are removed."),
  "C17": dict(level="exploration", design="DESIGN.md §4 C17",
    technique="differential property-based testing of the quiescence move set against the reference (captures, promotions, checks incl. discovered), on generated positions and on every quiescence node recorded inside real searches (hook)",
-   text="Public generate_quiescence_moves compared as a multiset with the reference tactical set on ~60k generated positions incl. discovered-check, ep-check, castling-check and under-promotion-check motifs; plus every quiescence node visited by real depth-1..2 searches (in-check nodes must list all legal moves).",
-   note="Hook records the list search_until_quiet chose, before ordering."),
+   text="Public generate_quiescence_moves compared as a multiset with the reference tactical set on ~60k generated positions incl. discovered-check, ep-check, castling-check and under-promotion-check motifs; every quiescence node visited by real depth-1..2 searches (in-check nodes must list all legal moves); and the nodes lying >= 10 plies below the horizon in depth-1..4 searches of full middlegames and in direct calls of the quiescence search with generated windows (hundreds of nodes >= 32 plies deep per quick run).",
+   note="Hook records the list search_until_quiet chose, before ordering, with the node's nesting depth below the horizon."),
 }
 
 NOT_YET = {}
@@ -121,7 +121,7 @@ def main():
         ],
         "checks": checks,
         "not_applicable": na,
-        "notes": "All checks: ./check <ID> quick|thorough; replay: ./check <ID> --replay <file>. Exit 2 = harness could not decide (never a violation). Known findings: /verif/known_findings.json.",
+        "notes": "All checks: ./check <ID> quick|thorough; replay: ./check <ID> --replay <file> (structural: the decoded case in the file is re-run, no generator involved). Exit 2 = harness could not decide (never a violation). Known findings: /verif/known_findings.json. Seeded breaking changes and what catches them: /verif/seeded/*/meta.json and DESIGN.md §10. Hook commits only add cfg-guarded code; the later ones rewrite lines of earlier hook code, never original lines.",
     }
     json.dump(m, open(os.path.join(V, "MANIFEST.json"), "w"), indent=1)
     print("wrote MANIFEST.json:", len(checks), "checks,", len(na), "not claimed")
